@@ -82,6 +82,11 @@ def oracle(prop, script, c_lines):
         if i >= len(c_lines):
             return "op %d '%s': no output from the implementation" % (i, op)
         line = c_lines[i]
+        if line.startswith("STOP bad-float-environment"):
+            # the harness refused to compute (FLT_EVAL_METHOD != 0 or an unexpected float
+            # format): says nothing about the property; the line still differs from the
+            # model's, so the run is reported as a broken correspondence
+            return None
         if line.startswith("STOP"):
             return "op %d '%s': implementation stopped with '%s'" % (i, op, line)
         try:
@@ -195,12 +200,12 @@ def log_uniform(rng, maxbits=64):
 
 def grid_ops(rng, tier):
     """boundary grid of C17a"""
-    nr = 2 if tier == "quick" else 8
+    nr = 4 if tier == "quick" else 8
     ms = float_grid(rng, nr, lo=1)
     ks_conv = float_grid(rng, 1 if tier == "quick" else 4)
     p2m = pow2_neighbours(lo=1)
     p2k = pow2_neighbours()
-    kworst = interesting_keys(2 ** 16 if tier == "quick" else 5300000, per_exp=2 if tier == "quick" else 4)
+    kworst = interesting_keys(2 ** 18 if tier == "quick" else 5300000, per_exp=2 if tier == "quick" else 4)
     ksmall = list(range(0, 300 if tier == "quick" else 5000))
     mfew = clip([1, 2, 3, 5, 7, 10, 2 ** 23 - 1, 2 ** 23, 2 ** 24 - 1, 2 ** 24 + 1, 2 ** 24 + 3, 2 ** 25 + 5,
                  2 ** 31 - 1, 2 ** 32 + 1, 2 ** 53 + 1, 2 ** 63 - 1, 2 ** 63 + 1, 2 ** 63 + 2 ** 39,
